@@ -269,10 +269,12 @@ pub fn run(args: Args) -> ! {
     let _ = CORPUS.set(corpus);
 
     let replay_one = |rep: &mut Report, p: &str, sub: &str| {
-        let j = super::load_replay(p);
+        let j = super::load_replay_any(p);
         let mut st = Stats::new();
-        // direct text replay bypasses the generator entirely
-        let r = if let Some(text) = j["case"]["text"].as_str() {
+        // direct text / bytes replay bypasses the generator entirely
+        let r = if j["raw"] == true {
+            bytes_check(&super::case_bytes(&j).unwrap_or_default(), "replay").map(|_| ())
+        } else if let Some(text) = j["case"]["text"].as_str() {
             differential(text, "replay").map(|_| ())
         } else {
             let tape = super::replay_tape(&j);
